@@ -333,8 +333,10 @@ def run(P, tier="quick"):
         for r, (mut, ref, trace) in sorted(tr.violations.items()):
             pname = f.params[r]["name"]
             what = mut.text()[:70] if mut is not None else "?"
-            anchor = "%s:%s" % (pname, (mut.callee + "()") if mut is not None and mut.k == "CallExpr" and mut.callee else
-                                (mut.kids[0].strip().member if mut is not None and mut.kids and mut.kids[0].strip().k == "MemberExpr" else "store"))
+            # identity of the finding = (function, object): "this function is not atomic with respect to this object".
+            # How the object is touched (a store, a helper call) is detail of the message: extracting the store into a
+            # helper must not turn a recorded finding into a new one
+            anchor = "not-atomic:%s" % pname
             R.violated(Finding("R18", props, f.file, f.name, anchor,
                                "object '%s' is modified at line %d (%s) on a path that is then refused at line %d and returns "
                                "failure: a refused call must leave the object unchanged" %
